@@ -79,8 +79,11 @@ def pick(w, R, empty=False):
 
 
 def default_value(rtype, d):
-    """A reader field default as the Python value a reader returns."""
-    return d
+    """A reader field default as the Python value a reader returns (bytes and
+    fixed defaults are the ISO-8859-1 bytes of the JSON string)."""
+    from .conform import default_datum
+
+    return default_datum(rtype, d)
 
 
 class _Ctx:
